@@ -20,6 +20,7 @@ from ..interp import Interp, run_paths
 from ..values import *
 from ..rope import Rope, install
 from .. import cellmodel as cm
+from .. import bocrun
 
 MANIFEST = dict(
     technique='abstract interpretation of check_proof / check_block_header_proof / check_account_proof on constructor-built cells with symbolic hashes; path enumeration: set of decided hash equalities on every accepting path vs specification, all other paths raise; provenance (proof-derived vs claimed) of compared hashes',
@@ -68,8 +69,8 @@ def merkle_proof(it, name, stored, child):
     return c
 
 
-def merkle_update(it, name, old, new):
-    ba = BA([Seg(8, 'k', format(4, '08b')), Seg(256, 'b', sym32('U_old')), Seg(256, 'b', sym32('U_new')), Seg(32, 'k', format(0, '032b'))])
+def merkle_update(it, name, old, new, stored_new=None):
+    ba = BA([Seg(8, 'k', format(4, '08b')), Seg(256, 'b', sym32('U_old')), Seg(256, 'b', stored_new if stored_new is not None else sym32('U_new')), Seg(32, 'k', format(0, '032b'))])
     c = cm.new_cell(it, cm.tvm_bits(it, ba), [old, new], UPDATE)
     c.tag = name
     return c
@@ -99,7 +100,7 @@ def check(run):
     prog = Program()
     run.explanation = 'proof checkers interpreted on constructor-built cells with symbolic hashes; each accepting path must have decided every required equality between the right quantities.'
     run.rule('D1', 'check_proof accepts only a Merkle-proof cell whose stored hash and whose child\'s level-0 hash both equal the expected hash; everything else raises', 12)
-    run.rule('D2', 'check_block_header_proof accepts only when the root level-0 hash equals the block hash; the state hash returned is the level-0 hash of reference [2][1]', 6)
+    run.rule('D2', 'check_block_header_proof accepts only when the root level-0 hash equals the block hash; the state hash it returns is committed by that hash (occurs in its term)', 8)
     run.rule('D3', 'check_account_proof: two roots; header proof; state root hash = header state hash; proved account level-0 hash = representation hash of the CLAIMED state', 8)
     run.rule('D4', 'check_shard_proof returns early only for identical block ids; wrong workchain / root count / block info / state hash raise', 4)
     run.trust('CPython ast', 'checker interpreter', 'sa/rope.py', 'distinct SHA-256 terms denote distinct digests')
@@ -159,17 +160,47 @@ def check(run):
         run.check(ok, 'D1', 'check_proof[cell type]' if not ok else f'not a Merkle proof: {tname}', f'{tname} cell carrying the expected hash everywhere: outcomes {sorted(set(outs))}', w1)
 
     # ------------------------------------------------------------------ D2 header check
+    # cells are NOT forged here: their hashes are the constructor's own SHA-256 terms, so "the returned state hash is committed by the checked
+    # block hash" is decidable as: the returned value occurs inside the term of the root's level-0 hash (or was decided equal to something that does)
     B = sym32('B')
-    for rootkind in ('ordinary', 'pruned'):
+
+    def pruned_n(it, mask, stored, name):
+        k = bin(mask).count('1')
+        ba = BA([Seg(16, 'k', bits_of_bytes(bytes([1, mask])))] + [Seg(256, 'b', h) for h in stored] + [Seg(16, 'k', format(3 + i, '016b')) for i in range(k)])
+        return cm.new_cell(it, cm.tvm_bits(it, ba), [], PRUNED)
+
+    def upd_cell(it, old, new, stored_new):
+        ba = BA([Seg(8, 'k', format(4, '08b')), Seg(256, 'b', sym32('UOLD')), Seg(256, 'b', stored_new), Seg(32, 'k', format(0, '032b'))])
+        return cm.new_cell(it, cm.tvm_bits(it, ba), [old, new], UPDATE)
+
+    def occurs(it, needle, hay, depth=0):
+        if depth > 60:
+            return False
+        if repr(it.vkey(needle)) == repr(it.vkey(hay)):
+            return True
+        if isinstance(hay, Term):
+            return any(occurs(it, needle, a, depth + 1) for a in hay.a)
+        if isinstance(hay, Rope):
+            return any(occurs(it, needle, v, depth + 1) for v, _ in hay.parts)
+        if isinstance(hay, ListV):
+            return any(occurs(it, needle, v, depth + 1) for v in hay.items)
+        return False
+    header_cases = {
+        'consistent update (new child pruned, mask 1)': lambda it: (lambda S: upd_cell(it, pruned_n(it, 1, [sym32('SO')], 'old'), pruned_n(it, 1, [S], 'new'), S))(sym32('NEWSTATE')),
+        'forged new child (pruned, mask 3: level-1 hash as committed, level-0 hash arbitrary)': lambda it: upd_cell(it, pruned_n(it, 1, [sym32('SO')], 'old'), pruned_n(it, 3, [sym32('ARBITRARY'), sym32('S1')], 'new'), sym32('NEWSTATE')),
+        'forged new child (ordinary cell)': lambda it: upd_cell(it, pruned_n(it, 1, [sym32('SO')], 'old'), cm.new_cell(it, cm.tvm_bits(it, BA([Seg(8, 'k', '11111111')])), []), sym32('NEWSTATE')),
+    }
+    for cname, mkupd in header_cases.items():
         for store in (False, True):
-            def one(orc, rootkind=rootkind, store=store):
+            nacc = 0
+
+            def one(orc, mkupd=mkupd, store=store):
                 it = mk(prog)
                 it.oracle = orc
-                old, new = ordinary(it, 'old'), pruned(it, 'new', sym32('NEWSTATE'))
-                upd = merkle_update(it, 'upd', old, new)
-                kids = [ordinary(it, 'info'), ordinary(it, 'vflow'), upd, ordinary(it, 'extra')]
-                root = ordinary(it, 'root', kids) if rootkind == 'ordinary' else pruned(it, 'root', sym32('RS'))
-                l0 = root.l0 if rootkind == 'ordinary' else sym32('RS')
+                upd = mkupd(it)
+                leafc = lambda n: cm.new_cell(it, cm.tvm_bits(it, BA([Seg(8, 'k', format(n, '08b'))])), [])
+                root = cm.new_cell(it, cm.tvm_bits(it, BA([Seg(32, 'k', format(0x11ef55aa, '032b'))])), [leafc(1), leafc(2), upd, leafc(3)])
+                l0 = cm.call_method(it, root, 'get_hash', K(0))
                 try:
                     r = it.invoke(f_hdr, [root, B, K(store)], {})
                     return ('accept', r, it, l0)
@@ -177,20 +208,27 @@ def check(run):
                     return ('raise', e, it, l0)
             for (kind, res, it, l0), desc in run_paths(one, 64):
                 run.evaluations += 1
-                tag = f'root={rootkind},store_state_hash={store}'
+                tag = f'{cname}, store_state_hash={store}'
                 if kind == 'accept':
+                    nacc += 1
                     a = eq_decided(it, l0, B)
-                    if rootkind == 'pruned' and store:
-                        # a pruned root has no references: asking for the state hash must fail, not return something
-                        run.fail('D2', 'check_block_header_proof[state hash of a pruned root]', f'{tag}: returned {vrepr(res)[:40]}', w2)
-                        continue
-                    ret_ok = (not store and isinstance(res, K) and res.v is None) or (store and res is not None and repr(it.vkey(res)) == repr(it.vkey(sym32('NEWSTATE'))))
-                    ok = a is True and ret_ok
-                    run.check(ok, 'D2', 'check_block_header_proof[accepting path]' if not ok else f'{tag}|accept',
-                              f'{tag}: root level-0 hash == block hash decided {a}; returned {vrepr(res)[:40]} (expected {"the level-0 hash of reference [2][1] (new state)" if store else "None"})', w2)
+                    if not store:
+                        ok = a is True and isinstance(res, K) and res.v is None
+                        why = f'root level-0 hash == block hash decided {a}; returned {vrepr(res)[:30]}'
+                    else:
+                        bound = res is not None and not isinstance(res, K) and occurs(it, res, l0)
+                        is_new = res is not None and eq_decided(it, res, sym32('NEWSTATE')) is True     # the committed NEW state hash, not any committed hash
+                        ok = a is True and bound and is_new
+                        why = f'root level-0 hash == block hash decided {a}; returned state hash {vrepr(res)[:30]} ' + ('is committed by that hash (occurs in its term)' if bound else
+                                                                                                                  'is NOT committed by the checked block hash: a prover can choose it freely') + \
+                            ('' if is_new or not bound else '; but it is not the new-state hash stored in the Merkle update cell')
+                    run.check(ok, 'D2', 'check_block_header_proof[returned state hash not bound by the block hash]' if (store and a is True and not ok) else
+                              ('check_block_header_proof[accepting path]' if not ok else f'{tag}|accept[{desc[:24]}]'), f'{tag}: {why} (path {desc[:80]})', w2)
                 else:
-                    ok = res.kind == 'ProofError' or (rootkind == 'pruned' and store and eq_decided(it, l0, B) is True)
+                    ok = res.kind == 'ProofError'
                     run.check(ok, 'D2', 'check_block_header_proof[rejecting path]' if not ok else f'{tag}|reject[{desc[:30]}]', f'{tag}: raises {res.kind}', w2)
+            if cname.startswith('consistent'):
+                run.check(nacc >= 1, 'D2', 'check_block_header_proof[completeness]' if nacc < 1 else f'{tag}|consistent proof accepted', f'{tag}: {nacc} accepting path(s)', w2)
 
     # ------------------------------------------------------------------ D3 account proof
     for claim_kind in ('ordinary', 'pruned-carrying-the-hash'):
@@ -204,7 +242,7 @@ def check(run):
                     # PROOF side
                     ST = sym32('STATE_FROM_HEADER')
                     new = pruned(it, 'new', ST)
-                    upd = merkle_update(it, 'upd', ordinary(it, 'old'), new)
+                    upd = merkle_update(it, 'upd', ordinary(it, 'old'), new, ST)
                     blk_root = ordinary(it, 'blkroot', [ordinary(it, 'info'), ordinary(it, 'vflow'), upd, ordinary(it, 'extra')])
                     p0 = merkle_proof(it, 'p0', sym32('D0'), blk_root)
                     A = sym32('ACCOUNT_L0')
@@ -275,7 +313,7 @@ def check(run):
             it = mk(prog)
             it.oracle = orc
             ST = sym32('STATE_FROM_HEADER')
-            upd = merkle_update(it, 'upd', ordinary(it, 'old'), pruned(it, 'new', ST))
+            upd = merkle_update(it, 'upd', ordinary(it, 'old'), pruned(it, 'new', ST), ST)
             blk_root = ordinary(it, 'blkroot', [ordinary(it, 'info'), ordinary(it, 'vflow'), upd, ordinary(it, 'extra')])
             p0 = merkle_proof(it, 'p0', sym32('D0'), blk_root)
             state_root = ordinary(it, 'stateroot', [pruned(it, 'accounts-branch', sym32('PRUNED_DICT'))])
@@ -310,6 +348,34 @@ def check(run):
         ok = 'accept' not in outs
         run.check(ok, 'D3', 'check_account_proof[account not shown by the proof]' if not ok else f'absent account, claim={claim_kind}',
                   f'account absent from the parsed dictionary, claimed state {claim_kind}: outcomes {sorted(set(outs))} (no path may accept)', w3)
+    # the cell that stands for the account's state in the proof: ShardAccount.cell[0] must be the account:^Account reference of the leaf even when the
+    # leaf's augmentation (DepthBalanceInfo with extra currencies) has already consumed a reference of the same cell
+    for consumed in (0, 1):
+        it = mk(prog)
+        extra_dict = cm.new_cell(it, cm.tvm_bits(it, BA([Seg(6, 'k', '101010')])), [])
+        account_cell = cm.new_cell(it, cm.tvm_bits(it, BA([Seg(9, 'k', '111000111')])), [])
+        bits = BA([Seg(10, 'k', '0010100001' if consumed else '0010100000')] + [Seg(256, 'b', sym32('LTH')), Seg(64, 'k', format(77, '064b'))])
+        leafc = cm.new_cell(it, cm.tvm_bits(it, bits), ([extra_dict] if consumed else []) + [account_cell])
+        sl = cm.call_method(it, leafc, 'begin_parse')
+        cm.call_method(it, sl, 'skip_bits', K(10))
+        if consumed:
+            cm.call_method(it, sl, 'load_ref')
+
+        def summary(f, args, kw):
+            if f.name == 'deserialize' and f.cls is not None and f.cls.name == 'Account':
+                return Sym('account-object')
+            return None
+        it.summary_hook = summary
+        try:
+            sa = it.call(it.getattr(prog.cls('ShardAccount'), 'deserialize'), [sl], {})
+            cell = sa.attrs.get('cell')
+            first = it.getattr(cell, 'refs').items[0] if isinstance(cell, Inst) and it.getattr(cell, 'refs').items else None
+            ok = first is not None and bocrun.ckey(it, first) == bocrun.ckey(it, account_cell)
+            why = f'leaf whose extra consumed {consumed} reference(s): ShardAccount.cell[0] is ' + ('the account cell' if ok else f'{bocrun.ckey(it, first)[0] if first is not None else None} (the account cell is {bocrun.ckey(it, account_cell)[0]})')
+        except RaiseEx as e:
+            ok, why = False, f'raises {e}'
+        run.check(ok, 'D3', 'ShardAccount.deserialize[cell kept for the proof check]' if not ok else f'ShardAccount.cell after {consumed} consumed reference(s)', why, prog.where(prog.method('ShardAccount', 'deserialize')))
+        run.evaluations += 1
     # ------------------------------------------------------------------ D4 shard proof front part (until block parsing)
     def blkid(it, wc, seqno, rh):
         b = Inst(prog.cls('BlockIdExt'))
